@@ -489,7 +489,10 @@ class Env:
 
 # ---- oracle for one step ----------------------------------------------------
 def _case(env, step):
-    return {"cfg": env.cfg, "steps": [step]}
+    # the steps just before this one (same lookups) belong to the replay form: what a lookup remembers from an earlier
+    # request must not change the verdict of a later one, so a failure may need its predecessors to show
+    prev = [s for s in getattr(env, "recent", [])[-6:] if s is not step]
+    return {"cfg": env.cfg, "steps": prev + [step]}
 
 
 def _rel_events(env):
@@ -550,6 +553,10 @@ def run_step(env, step, ev):
     mode = step["mode"]
     uri = env.expand(step)
     case = _case(env, step)
+    if not hasattr(env, "recent"):
+        env.recent = []
+    env.recent.append(step)
+    del env.recent[:-8]
     del env.events[:]
     if mode == "direct":
         nt = env.naive_outside(uri)
@@ -801,7 +808,7 @@ def _combo(i, depth):
 # ---- shards ------------------------------------------------------------------------
 def _record(fails, f):
     old = fails.get(f.key)
-    if old is None or len(f.case["steps"][0]["uri"]) < len(old.case["steps"][0]["uri"]):
+    if old is None or len(f.case["steps"][-1]["uri"]) < len(old.case["steps"][-1]["uri"]):
         fails[f.key] = f
 
 
@@ -839,7 +846,8 @@ def _steps_for(task):
         if "direct" in routes:
             yield dict(base, mode="direct")
         if "callers" in routes:  # every depth, kind and caller spelling rotating
-            for depth in range(4):
+            # (deepest caller first for every other URI: what one caller resolved must not be reused for a shallower one)
+            for depth in (range(4) if i % 2 else range(3, -1, -1)):
                 kind, cspell = _combo(i, depth)
                 yield dict(base, mode="caller", kind=kind, depth=depth, cspell=cspell)
         if "callers-all" in routes:  # every depth x every kind, caller spelling rotating
